@@ -4,8 +4,9 @@
    cannot overflow i32; subtraction is addition of the negation; the time of day is carried unchanged.)
 -/
 import SqlDt.Lemmas.Div
+import SqlDt.Props.C01
 namespace SqlDt.C09
-open SqlDt Gen
+open SqlDt Gen Spec
 
 /-- The two truncating-division branches of the carry compute floor division of the absolute month index:
     target = (t / 12, t mod 12 + 1) with t = 12·year + (month − 1) + k, for every month 1..12 and EVERY integer k. -/
@@ -65,6 +66,70 @@ theorem monthCarry_inverse (year month k : Int) (hm : 1 ≤ month ∧ month ≤ 
   have h2 := monthCarry_month_range year month k hm
   rw [monthCarry_floor _ _ (-k) h2, monthCarry_floor year month k hm]
   simp only [Prod.mk.injEq]; omega
+
+/-! ## Layer 2: on the calendar -/
+
+/-- Target of adding `k` months to (y, m): floor division of the absolute month index. -/
+def targetYear (y m k : Int) : Int := (12 * y + (m - 1) + k) / 12
+def targetMonth (y m k : Int) : Int := (12 * y + (m - 1) + k) % 12 + 1
+
+/-- ADDING MONTHS, for every real date of years 1..9999 and EVERY integer offset: same day of month in the month `k`
+    months away; `DateOutOfRange` exactly when the target year leaves 1..9999, `InvalidDate` exactly when the target month
+    has no such day (never clamped, never spilled into the next month). -/
+theorem addMonths_spec (y m d k : Int) (h : ValidYMD y m d) :
+    Date.addIntervalYmInternal (dayNumber y m d) k =
+      if targetYear y m k < 1 ∨ targetYear y m k > 9999 then .error .DateOutOfRange
+      else if d > dim (targetYear y m k) (targetMonth y m k) then .error .InvalidDate
+      else .ok (dayNumber (targetYear y m k) (targetMonth y m k) d) := by
+  obtain ⟨_, _, hex⟩ := C01.tryFromYmd_roundtrip y m d h
+  obtain ⟨y1, y9, m1, m12, d1, dd⟩ := h
+  unfold Date.addIntervalYmInternal
+  rw [hex]
+  simp only []
+  rw [monthCarry_floor y m k ⟨m1, m12⟩]
+  simp only []
+  rw [C01.tryFromYmd_classify]
+  unfold targetYear targetMonth
+  have d31 : d ≤ 31 := by
+    unfold dim at dd; split at dd
+    · split at dd <;> omega
+    · split at dd <;> omega
+  by_cases c1 : (12 * y + (m - 1) + k) / 12 < 1 ∨ (12 * y + (m - 1) + k) / 12 > 9999
+  · rw [if_pos c1, if_pos c1]
+  · rw [if_neg c1, if_neg c1]
+    have c2 : ¬ ((12 * y + (m - 1) + k) % 12 + 1 < 1 ∨ (12 * y + (m - 1) + k) % 12 + 1 > 12) := by omega
+    have c3 : ¬ (d < 1 ∨ d > 31) := by omega
+    rw [if_neg c2, if_neg c3, Lemmas.daysOfMonth_eq _ _ (by omega) (by omega)]
+    by_cases c4 : d > dim ((12 * y + (m - 1) + k) / 12) ((12 * y + (m - 1) + k) % 12 + 1)
+    · rw [if_pos c4, if_pos c4]
+    · rw [if_neg c4, if_neg c4, ← UNIX_EPOCH_JULIAN_eq]
+      exact congrArg _ (Lemmas.fromYmd_eq_dayNumber _ _ d (by omega) (by omega))
+
+/-- LAST DAY OF MONTH: the final day (28, 29, 30 or 31) of the date's own month; always a valid date. -/
+theorem lastDayOfMonth_spec (y m d : Int) (h : ValidYMD y m d) :
+    Date.lastDayOfMonth (dayNumber y m d) = dayNumber y m (dim y m) ∧ ValidYMD y m (dim y m) := by
+  obtain ⟨_, _, hex⟩ := C01.tryFromYmd_roundtrip y m d h
+  obtain ⟨y1, y9, m1, m12, d1, dd⟩ := h
+  unfold Date.lastDayOfMonth
+  rw [hex]
+  simp only []
+  rw [Lemmas.daysOfMonth_eq _ _ (by omega) ⟨m1, m12⟩]
+  refine ⟨?_, y1, y9, m1, m12, by omega, Int.le_refl _⟩
+  unfold dayNumber; omega
+
+/-- On a timestamp the time of day is unchanged: the result is the same microsecond of the last day of the month. -/
+theorem ts_lastDayOfMonth_spec (x y m d : Int) (h : ValidYMD y m d) (hd : dayNumber y m d = x / 86400000000) :
+    Timestamp.lastDayOfMonth x = dayNumber y m (dim y m) * 86400000000 + x % 86400000000 := by
+  obtain ⟨_, _, hex⟩ := C01.tryFromYmd_roundtrip y m d h
+  obtain ⟨y1, y9, m1, m12, d1, dd⟩ := h
+  unfold Timestamp.lastDayOfMonth
+  rw [Timestamp.extract_eq]
+  simp only []
+  rw [← hd, hex]
+  simp only []
+  rw [Lemmas.daysOfMonth_eq _ _ (by omega) ⟨m1, m12⟩]
+  unfold USECONDS_PER_DAY dayNumber at *
+  omega
 
 example : Date.monthCarry 2021 1 (-1) = (2020, 12) ∧ Date.monthCarry 2021 12 1 = (2022, 1) ∧
     Date.monthCarry 2021 6 (-18) = (2019, 12) ∧ Date.addIntervalYmInternal 18657 1 = .error .InvalidDate := by decide
